@@ -160,6 +160,13 @@ def catalogue(T):
         d = math.exp(ld)
         out.append(("Logit(lower=%g,logdelta=%g)" % (lower, ld), mk("Logit", {"lower": lower, "logdelta": ld}),
                     lower + d * lin(0.05, 0.95, 19), []))
+    # bounds of very large magnitude with a narrow interval: upper - lower is exp(logdelta) rounded to the float spacing at lower
+    for lower, ld in ((2.0 ** 30, -10.0), (-2.0 ** 30, -10.0), (2.0 ** 47, 2.0), (-2.0 ** 44, 1.0), (1e6, -3.0)):
+        t0 = T.Logit()
+        t0.lower, t0.logdelta = lower, ld
+        width = float(t0.upper - lower) if hasattr(t0, "upper") else math.exp(ld)
+        out.append(("Logit(lower=%g,logdelta=%g)" % (lower, ld), mk("Logit", {"lower": lower, "logdelta": ld}),
+                    lower + width * lin(0.1, 0.9, 17), []))
     for nu, ctor in ((1e-10, {}), (0.01, {}), (1.0, {}), (0.5, {"mininu": 0.5, "base": 10}), (2.0, {"base": 2})):
         out.append(("Log(nu=%g,%s)" % (nu, ctor), mk("Log", {"nu": nu}, **ctor), geo(0.1, 1e4, 24), []))
     lams = [0.0, 5e-11, 1.5e-10, 1e-6, 0.01, 0.2, 0.5, 1.0, 2.0, 3.0]
@@ -203,6 +210,38 @@ def catalogue(T):
             out.append(("Manly(lam=%g,xmax=%g)" % (lam, xmax), mk("Manly", {"lam": lam}, {"xmax": xmax}),
                         xmax * np.concatenate([-geo(1e-2, 1.0, 8)[::-1], geo(1e-2, 1.0, 8)]), []))
     return out
+
+
+LAYOUT_ERRORS = (TypeError, AttributeError, ValueError, KeyError, IndexError, NotImplementedError)
+PRESENTATIONS = ["fortran2d", "transposed", "list", "series", "column", "strided", "tuple", "float-scalars"]
+
+
+def present(xs, style):
+    """the same points in another container / shape / memory order; np.ravel(np.asarray(.)) restores the logical order"""
+    import pandas as pd
+    a = np.array(xs[:len(xs) // 2 * 2], dtype=float)
+    kind = PRESENTATIONS[style % len(PRESENTATIONS)]
+    if kind == "fortran2d":
+        return np.asfortranarray(a.reshape(-1, 2))
+    if kind == "transposed":
+        return np.ascontiguousarray(a.reshape(-1, 2).T).T if False else a.reshape(2, -1).T
+    if kind == "list":
+        return [float(v) for v in a]
+    if kind == "tuple":
+        return tuple(float(v) for v in a)
+    if kind == "series":
+        return pd.Series(a, index=pd.RangeIndex(5, 5 + len(a)))
+    if kind == "column":
+        return a.reshape(-1, 1)
+    if kind == "strided":
+        big = np.zeros(3 * len(a) + 2)
+        big[1::3][:len(a)] = a
+        return big[1::3][:len(a)]
+    return a[:1].reshape(())[()]          # a numpy float scalar
+
+
+def flat(v):
+    return np.ravel(np.asarray(v, dtype=float))
 
 
 def softmax_rows():
